@@ -161,17 +161,23 @@ class Session:
         if os.path.exists(self.path):
             shutil.rmtree(self.path)
         ref = st['ref']
-        if len(ref) == 0:
-            self.ra = self.darr.create_raggedarray(self.path, atom=self.cfg.tail, dtype=self.cfg.dtype,
-                                                   accessmode=st['mode'], indextype=self.rc.indextype)
-        else:
-            items = [self.cfg.rows_array(tuple(r for r in it for _ in range(self.rc.block))).astype(self.cfg.dtype)
-                     for it in ref]
-            self.ra = self.darr.asraggedarray(self.path, items, dtype=self.cfg.dtype, accessmode=st['mode'],
-                                              indextype=self.rc.indextype)
+        try:
+            if len(ref) == 0:
+                self.ra = self.darr.create_raggedarray(self.path, atom=self.cfg.tail, dtype=self.cfg.dtype,
+                                                       accessmode=st['mode'], indextype=self.rc.indextype)
+            else:
+                items = [self.cfg.rows_array(tuple(r for r in it for _ in range(self.rc.block))).astype(self.cfg.dtype)
+                         for it in ref]
+                self.ra = self.darr.asraggedarray(self.path, items, dtype=self.cfg.dtype, accessmode=st['mode'],
+                                                  indextype=self.rc.indextype)
+        except Exception as e:
+            from .arraymodel import ImplFailure
+            raise ImplFailure('creating a ragged array of %d subarrays (%s, index %s) failed: %r'
+                              % (len(ref), self.cfg.dtype, self.rc.indextype, e)) from None
 
     def step(self, name, args):
         exc = None
+        self.alt = None
         try:
             getattr(self, 'do_' + name)(*args)
         except Skip:
@@ -256,9 +262,16 @@ class Session:
         self.ra.append(self.bad_item(kd))
 
     def do_RT_Call(self, i):
+        self.alt = None
         if i == NONINT:
-            i = [2.0, '1', None, np.int64(1)][self.n % 4]
+            i = [2.0, '1', None][self.n % 3]
             self.n += 1
+        else:
+            self.nint = getattr(self, 'nint', len(self.path)) + 1
+            t = [None, None, None, np.uint8, None, None, np.int8, None, None, np.int64, None, np.int16][self.nint % 12]
+            if t is not None and not getattr(self, 'plain_ints', False) and np.iinfo(t).min <= i <= np.iinfo(t).max:
+                i = t(i)
+                self.alt = ('RT_Call', [NONINT])
         self.darr.truncate_raggedarray(self.ra, i)
 
     def do_SetMode(self, m):
